@@ -117,11 +117,14 @@ def renameTids (names : List (String × Nat)) (out : String) : List (String × N
         | none => let k := names.length; (names ++ [(name, k)], s ++ s!"#{k}" ++ after)
       | [] => (names, s)) (names, first)
 
-/-- `#k`, `#k~fresh`, `R~fresh`, `x<hex>`, `<spec>+<hex>` -/
+/-- `#k`, `#k~fresh`, `R~fresh`, `x<hex>`, `<spec>+<hex>`, `<spec>^<hex>` -/
 def parseInTid? (d : HDrv) (w : String) : Option InTid :=
   -- `<spec>+<hex>`: an id of this node followed by further bytes; its length is not 8, so it is
   -- no id of this node (only used for responses, which echo nothing)
-  if (w.splitOn "+").length = 2 then (bytesOfHex? ((w.splitOn "+").getD 1 "")).map (fun b => .raw (0 :: 0 :: 0 :: 0 :: 0 :: 0 :: 0 :: 0 :: b))
+  -- `<spec>^<hex>`: an id of this node with its leading bytes altered: 8 bytes with an action prefix the
+  -- node never used
+  if (w.splitOn "^").length = 2 then some (.raw [255, 255, 255, 255, 255, 0, 0, 0])
+  else if (w.splitOn "+").length = 2 then (bytesOfHex? ((w.splitOn "+").getD 1 "")).map (fun b => .raw (0 :: 0 :: 0 :: 0 :: 0 :: 0 :: 0 :: 0 :: b))
   else if w.startsWith "x" then (bytesOfHex? (w.drop 1).toString).map .raw
   else if w = "R~fresh" then some (.fresh refreshAid)
   else if w.startsWith "#" then
